@@ -717,9 +717,19 @@ PSEM = 1000          # Sem ids >= PSEM are per-process: (SP (id - PSEM))
 # statements of queues.py that are outside the model and skipped (text must match exactly)
 Q_SKIP = {
     'assert not self._closed',                 # the queue is never closed in the model
-    'deadline = monotonic() + timeout',        # the deadline is an oracle (scheduler choice)
-    'timeout = deadline - monotonic()',
+    'deadline = monotonic() + timeout',        # only its difference with a later clock reading matters
 }
+# `timeout = deadline - monotonic()` is the scheduling point Clock: the scheduler chooses whether the
+# deadline has passed (the register gets 1) or time is left (0)
+Q_REMAINING = 'timeout = deadline - monotonic()'
+
+
+class Rem:
+    """the local `timeout` once it holds a remaining time: register `e` = 1 iff it is negative (the
+    deadline has passed); `tr` = register holding `timeout > 0` when some path assigns a constant to
+    `timeout` (else None: it is positive whenever it is not negative)"""
+    def __init__(self, e, tr):
+        self.e, self.tr = e, tr
 Q_START = 'if self._thread is None:\n    self._start_thread()'
 
 
@@ -738,9 +748,49 @@ class QCompiler(Compiler):
             return fr.env[e.id][1]
         self.err(e, '%s is not a message register' % ast.unparse(e), fr)
 
+    def rem_of(self, fr, node):
+        """the Rem of this frame's `timeout`, created on first use"""
+        v = fr.env.get('timeout')
+        if isinstance(v, Rem):
+            return v
+        if not isinstance(v, Flag):
+            self.err(node, '`timeout` is not the timeout parameter here', fr)
+        consts = any(isinstance(n, ast.Assign) and len(n.targets) == 1 and ast.unparse(n.targets[0]) == 'timeout'
+                     and isinstance(n.value, ast.Constant) for n in ast.walk(fr.fn))
+        e = self.newreg()
+        v = fr.env['timeout'] = Rem(e, self.newreg() if consts else None)
+        return v
+
+    def poll_flag(self, c, fr):
+        """flag `timed` of a call self._poll([timeout])"""
+        if c.keywords or len(c.args) > 1:
+            self.err(c, 'unsupported poll call %s' % ast.unparse(c), fr)
+        if not c.args:
+            return 'F'
+        a = c.args[0]
+        if isinstance(a, ast.Name) and a.id == 'timeout' and isinstance(fr.env.get('timeout'), Rem):
+            rem = fr.env['timeout']
+            return 'T' if rem.tr is None else ('R', rem.tr)
+        if isinstance(a, ast.Constant) and isinstance(a.value, (int, float)) and not isinstance(a.value, bool):
+            return 'T' if a.value > 0 else 'F'
+        self.err(c, 'unsupported poll timeout %s' % ast.unparse(a), fr)
+
     def stmt(self, s, fr):
         txt = ast.unparse(s)
         if txt in Q_SKIP:
+            return
+        if txt == Q_REMAINING:
+            rem = self.rem_of(fr, s)
+            self.emit('Clock %d' % rem.e)
+            if rem.tr is not None:
+                self.emit('Mov %d 1' % rem.tr)
+            return
+        if isinstance(s, ast.Assign) and len(s.targets) == 1 and ast.unparse(s.targets[0]) == 'timeout' \
+                and isinstance(s.value, ast.Constant) and isinstance(s.value.value, (int, float)) \
+                and not isinstance(s.value.value, bool) and s.value.value >= 0:
+            rem = self.rem_of(fr, s)
+            self.emit('Mov %d 0' % rem.e)
+            self.emit('Mov %d %d' % (rem.tr, 1 if s.value.value > 0 else 0))
             return
         if txt == Q_START:
             self.emit('Start')
@@ -819,6 +869,9 @@ class QCompiler(Compiler):
     def value_into(self, e, fr, dst):
         if isinstance(e, ast.Call) and ast.unparse(e.func) == 'ForkingPickler.loads' and len(e.args) == 1:
             return self.value_into(e.args[0], fr, dst)
+        if isinstance(e, ast.Call) and ast.unparse(e.func) == 'self._poll':
+            self.emit('Poll %s %d' % (coq_flag(self.poll_flag(e, fr)), dst))
+            return
         return Compiler.value_into(self, e, fr, dst)
 
     def cond_jump_false(self, test, fr, target):
@@ -827,15 +880,20 @@ class QCompiler(Compiler):
             for v in test.values:
                 self.cond_jump_false(v, fr, target)
             return
-        if txt == 'timeout < 0 or not self._poll(timeout)':
-            # the deadline already passed, or polling until it finds nothing: one timed poll
-            # whose `timeout` choice covers both
-            self.emit('Poll FT %d' % TMP)
-            self.emit('Jnz %d %%s' % TMP, target)
+        if isinstance(test, ast.BoolOp) and isinstance(test.op, ast.Or):
+            # A or B: any true disjunct goes to the body
+            body = self.label()
+            for v in test.values[:-1]:
+                self.cond_jump_false(ast.copy_location(ast.UnaryOp(op=ast.Not(), operand=v), v), fr, body)
+            self.cond_jump_false(test.values[-1], fr, target)
+            self.place(body)
             return
-        if txt == 'not self._poll()':
-            self.emit('Poll FF %d' % TMP)
-            self.emit('Jnz %d %%s' % TMP, target)
+        neg, inner = False, test
+        while isinstance(inner, ast.UnaryOp) and isinstance(inner.op, ast.Not):
+            neg, inner = not neg, inner.operand
+        if ast.unparse(inner) == 'timeout < 0' and isinstance(fr.env.get('timeout'), Rem):
+            # the remaining time is negative: the deadline has passed (register set by Clock)
+            self.emit(('Jnz %d %%s' if neg else 'Jz %d %%s') % fr.env['timeout'].e, target)
             return
         if txt == 'timeout is None' and isinstance(fr.env.get('timeout'), Flag):
             f = fr.env['timeout'].f
@@ -968,10 +1026,14 @@ def feed_program(srcs, fk_src):
     comp.emit('Rel %d' % PSEM)                        # nrelease()
     comp.place(pop)
     comp.emit('BufPop 2 %s', top)                     # obj = bpopleft()  (IndexError: outer loop)
+    dead = comp.label()
+    comp.emit('Dumps 2 %s', dead)                     # obj = ForkingPickler.dumps(obj); an exception leaves both loops
     comp.emit('Acq 2 FT FF %d' % TMP)                 # wacquire()
     comp.emit('Send 2')                               # send_bytes(obj)
     comp.emit('Rel 2')                                # wrelease()
     comp.emit('Jmp %s', pop)
+    comp.place(dead)
+    comp.emit('Exit')                                 # except Exception: ... (logged); the function returns
     return [q_rename(i) for i in comp.resolve()]
 
 
